@@ -4,7 +4,7 @@ namespace vf {
 const char *ntC03 = "non-trivial = saved file checked with the reference decoder; distinct by (parameter-section length mod 512, number of groups, has-frames, loaded-then-edited)";
 CaseResult runC03(const Case &c, RunCtx &ctx) {
     CaseResult r;
-    Interp in(ctx);
+    Interp in(ctx, "C03");
     CountingListener L; in.L = &L;
     in.run(c);
     std::string why;
